@@ -80,6 +80,14 @@ class FullExecutor(Executor):
             if r is not NotImplemented:
                 return self.wrap(st, r, stmt_level)
             key = f"list.{name}"
+        elif is_str(t) and t.view == "native" and name in ("startswith", "endswith", "find"):
+            a0 = coerce(args[0], t)
+            if name == "startswith":
+                return self.wrap(st, V(BOOL, z3.PrefixOf(a0.z, recv.z)), stmt_level)
+            if name == "endswith":
+                return self.wrap(st, V(BOOL, z3.SuffixOf(a0.z, recv.z)), stmt_level)
+            start = coerce(args[1], INT).z if len(args) > 1 else z3.IntVal(0)
+            return self.wrap(st, V(INT, z3.IndexOf(recv.z, a0.z, start)), stmt_level)
         elif is_str(t):
             key = f"str.{name}"
         elif isinstance(t, TSet):
@@ -129,23 +137,70 @@ class FullExecutor(Executor):
             return STuple([K(k) for k in sd.items])
         raise Unsupported(f"dict.{name} on structural dict")
 
+    # ------------------------------------------------------------------ folds (lemma instances at list updates)
+    def fold_append(self, st, old, item, new):
+        """new == old ++ [item]: for every registered fold, the prefix lemma at k = len(old).  Its premise (the two
+        lists agree below k) is emitted as an obligation of its own; its conclusion is then assumed, together with
+        the definitional unfolding of the fold at the new length."""
+        from .dsl import FOLDS
+        from .exec import unfold_equations
+        for upto, prefix, concat in FOLDS.get(old.ty.key, []):
+            n = seq_len(old)
+            j = z3.Int(T.fresh_name("qf"))
+            prem = forall([j], z3.Implies(z3.And(0 <= j, j < n), z3.Select(seq_arr(new), j) == z3.Select(seq_arr(old), j)))
+            self.emit(st, "fold-pre", prefix.name, prem)
+            a = self.apply_spec(st, upto, [new, V(INT, n)], {})
+            b = self.apply_spec(st, upto, [old, V(INT, n)], {})
+            st.assume(val_eq(a, b))
+            top = self.apply_spec(st, upto, [new, V(INT, n + 1)], {})
+            for eq in unfold_equations(top.z):
+                st.assume(eq)
+
+    def fold_concat(self, st, a, b, new):
+        """new == a ++ b: premises of the prefix / concat lemmas as obligations, conclusions assumed."""
+        from .dsl import FOLDS
+        for upto, prefix, concat in FOLDS.get(a.ty.key, []):
+            la, lb = seq_len(a), seq_len(b)
+            j = z3.Int(T.fresh_name("qf"))
+            prem = z3.And(seq_len(new) == la + lb,
+                          forall([j], z3.Implies(z3.And(0 <= j, j < la), z3.Select(seq_arr(new), j) == z3.Select(seq_arr(a), j))),
+                          forall([j], z3.Implies(z3.And(0 <= j, j < lb), z3.Select(seq_arr(new), la + j) == z3.Select(seq_arr(b), j))))
+            self.emit(st, "fold-pre", (concat or prefix).name, prem)
+            x = self.apply_spec(st, upto, [new, V(INT, la)], {})
+            y = self.apply_spec(st, upto, [a, V(INT, la)], {})
+            st.assume(val_eq(x, y))
+            if concat is not None:
+                whole = self.apply_spec(st, upto, [new, V(INT, la + lb)], {})
+                fb = self.apply_spec(st, upto, [b, V(INT, lb)], {})
+                st.assume(val_eq(whole, self.binop(st, ast.Add(), y, fb)))
+
+    def append_to(self, st, lst, item):
+        new = list_append(lst, coerce(item, lst.ty.elem), st)
+        self.fold_append(st, lst, item, new)
+        return new
+
+    def concat_lists(self, st, a, b):
+        new = seq_concat(a, b, st)
+        self.fold_concat(st, a, b, new)
+        return new
+
     def recv_node(self, node):
         return node.func.value if isinstance(node, ast.Call) and isinstance(node.func, ast.Attribute) else None
 
     def list_method(self, st, recv, name, args, node):
         rn = self.recv_node(node)
         if name == "append":
-            self.assign_lvalue(st, rn, list_append(recv, coerce(args[0], recv.ty.elem), st))
+            self.assign_lvalue(st, rn, self.append_to(st, recv, args[0]))
             return K(None)
         if name == "extend":
             other = args[0]
             if isinstance(other, STuple):
                 cur = recv
                 for it in other.items:
-                    cur = list_append(cur, coerce(it, recv.ty.elem), st)
+                    cur = self.append_to(st, cur, it)
                 self.assign_lvalue(st, rn, cur)
                 return K(None)
-            self.assign_lvalue(st, rn, seq_concat(recv, coerce(other, recv.ty), st))
+            self.assign_lvalue(st, rn, self.concat_lists(st, recv, coerce(other, recv.ty)))
             return K(None)
         if name == "pop":
             ln = seq_len(recv)
@@ -271,7 +326,7 @@ class FullExecutor(Executor):
             # taken to cover every override (that is what the assumption says)
             for base in inspect.getmro(owner):
                 cand = CONTRACTS.get(f"{base.__module__}:{base.__qualname__}.{fn.__name__}")
-                if cand is not None and cand.kind == "external":
+                if cand is not None and (cand.kind == "external" or cand.opts.get("covers_overrides")):
                     c = cand
                     break
         if c is None:
@@ -662,6 +717,31 @@ class FullExecutor(Executor):
 
     def s_AugAssign(self, st, s):
         cur = self.eval(st, ast.copy_location(_load(s.target), s))
+        if isinstance(cur, V) and isinstance(cur.ty, TList) and isinstance(s.op, ast.Add):
+            # xs += [a, b]  /  xs += ys + [c]  /  xs += ys : appends and concatenations (with fold lemma instances)
+            new = cur
+            parts = []
+
+            def flat(n):
+                if isinstance(n, ast.BinOp) and isinstance(n.op, ast.Add):
+                    flat(n.left)
+                    flat(n.right)
+                else:
+                    parts.append(n)
+            flat(s.value)
+            for pn in parts:
+                if isinstance(pn, ast.List):
+                    for el in pn.elts:
+                        new = self.append_to(st, new, self.eval(st, el))
+                else:
+                    pv = self.eval(st, pn)
+                    if isinstance(pv, STuple):
+                        for it in pv.items:
+                            new = self.append_to(st, new, it)
+                    else:
+                        new = self.concat_lists(st, new, coerce(pv, cur.ty))
+            self.bind_target(st, s.target, new)
+            return [(st, NEXT)]
         val = self.eval(st, s.value)
         if isinstance(cur, V) and isinstance(cur.ty, TSet) and isinstance(s.op, ast.BitOr):
             new = self.set_method(st, cur, "union", [val], None)
@@ -909,6 +989,9 @@ class FullExecutor(Executor):
             b["_yielded"] = st.ghost["__yielded__"]
         if st.old is not None:
             b["old"] = PyObj(st.old)
+        for gk, gv in st.ghost.items():
+            if gk.startswith("__head") and isinstance(gv, Namespace):
+                b["_head" + gk[6:-2]] = PyObj(gv)     # values at the head of the enclosing iteration of loop k
         if extra:
             b.update(extra)
         return b
@@ -925,6 +1008,17 @@ class FullExecutor(Executor):
     def assume_inv(self, st, k, extra=None):
         inv = self.c.invs[k]
         st.assume(self.eval_contract(st, inv, self.inv_bindings(st, extra)))
+        hint = self.c.hints.get(f"inv_{k}")
+        if hint is not None:
+            # proof hint at the loop head: instances of proved lemmas (checked: lemma applications only), plus the
+            # definitional unfolding of the recursive specs they mention
+            from .verify import check_hint_is_lemmas
+            from .exec import unfold_equations
+            check_hint_is_lemmas(hint)
+            h = self.eval_contract(st, hint, self.inv_bindings(st, extra))
+            st.assume(h)
+            for eq in unfold_equations(h):
+                st.assume(eq)
 
     def dec_value(self, st, k, extra=None):
         d = self.c.decs.get(k)
@@ -943,6 +1037,7 @@ class FullExecutor(Executor):
         names, fields, yields = self.modified_in(s.body)
         head = st
         self.havoc_loop(head, names, fields, yields)
+        head.ghost[f"__head{k}__"] = Namespace(dict(head.env), dict(head.heap))
         self.assume_inv(head, k)
         c = truthy(self.eval(head, s.test))
         outs = []
@@ -1045,6 +1140,7 @@ class FullExecutor(Executor):
         head.assume(z3.And(lo <= i.z, i.z <= z3.If(n < lo, lo, n)))
         extra = {"_i": i, idx_name: i, "_iter": src if isinstance(src, V) else K(None)}
         head.env[idx_name] = i
+        head.ghost[f"__head{k}__"] = Namespace(dict(head.env), dict(head.heap))
         self.assume_inv(head, k, extra)
         outs = []
         it = head.fork()
